@@ -66,9 +66,26 @@ class Seq:
         self.markers.append((self.nm, self.t))
         self.shape.append('m')
 
+    def diffrun(self):
+        """Look-alike markers under per-difficulty labels (the decompiler merges such runs into one difficulty switch), possibly with a
+        time label in the middle of the run."""
+        r = self.r
+        cuts = sorted(r.sample([1, 2, 3], r.randint(1, 3)))
+        groups, prev = [], 0
+        for c in cuts + [4]: groups.append('0123'[prev:c]); prev = c
+        for i, g in enumerate(groups):
+            if i >= 1 and r.chance(0.45):
+                d = r.randint(1, 12); self.t = E.wrap(self.t + d); self.lines.append('+%d:' % d)
+                if not (-self.lim() - 1 <= self.t <= self.lim()): self.out_of_range = True
+            self.nm += 1
+            self.lines.append('{"%s"}: ins_900(%d);' % (g, self.nm))
+            self.markers.append((self.nm, self.t))
+        self.shape.append('diffrun'); self.kinds.add('diffrun')
+
     def seq(self, depth, n):
         r = self.r
         for _ in range(n):
+            if getattr(self, 'difficulty_runs', False) and r.chance(0.12): self.diffrun(); continue
             k = r.wpick([('label', 4), ('marker', 4), ('block', 1 if depth < 3 else 0), ('if', 1 if (self.blocks in ('full', 'plain') and depth < 3) else 0), ('loop', 0.6 if (self.blocks and depth < 3) else 0),
                          ('times', 0.5 if (self.blocks == 'full' and depth < 3) else 0)])
             if k == 'label': self.label()
@@ -108,7 +125,7 @@ def stored_times(data, tool, game, opc=900):
         for s in L.parse_ecl06(data, game)['subs']: scan(s['instrs'])
     return out
 
-LABEL_RE = re.compile(r'^\s*(?:(?P<abs>-?\d+):|\+(?P<rel>\d+):|(?P<ins>ins_\d+)\((?P<arg>-?\d+)?)')
+LABEL_RE = re.compile(r'^\s*(?:\{"[^"]*"\}:\s*)?(?:(?P<abs>-?\d+):|\+(?P<rel>\d+):|(?P<ins>ins_\d+)\((?:(?P<arg>-?\d+)|\((?P<sw>[-\d:\s]*)\))?)')
 
 def model_from_decompiled(text, opc):
     """Apply the label model to decompiled text: [(marker id, time)]."""
@@ -123,6 +140,10 @@ def model_from_decompiled(text, opc):
         if m.group('abs') is not None: t = int(m.group('abs'))
         elif m.group('rel') is not None: t = E.wrap(t + int(m.group('rel')))
         elif m.group('ins') == 'ins_%d' % opc and m.group('arg') is not None: out.append((int(m.group('arg')), t))
+        elif m.group('ins') == 'ins_%d' % opc and m.group('sw') is not None:
+            # a difficulty switch stands for one instruction per explicit case, all at this time
+            for c in m.group('sw').split(':'):
+                if c.strip(): out.append((int(c), t))
     return out
 
 def run_shard(ctx):
@@ -134,6 +155,7 @@ def run_shard(ctx):
         blocks = 'full' if (tool in ('anm', 'ecl') and game != 'th06') else ('plain' if tool == 'ecl' else ('loops' if tool == 'std' else None))
         if tool == 'msg' or (tool == 'anm' and game == 'th06'): blocks = None
         sq = Seq(r, bits, blocks)
+        sq.difficulty_runs = tool == 'ecl'
         sq.seq(0, r.randint(3, 14))
         if not sq.markers: sq.marker()
         body = '\n'.join(sq.lines).replace('ins_900(', 'ins_%d(' % opc)
